@@ -137,6 +137,28 @@ C18 = [(n_, "NumTraits.TU_checked_neg a" if n_ == "U_CheckedNeg_checked_neg" els
     ("U_Zero_is_zero", "NumTraits.T_is_zero a", None), ("I_Zero_is_zero", "NumTraits.T_is_zero a", None),
 ]
 
+# Shl / Shr by the eleven other primitive amount types (shift_impl!, try_shift_impl! expansions): the run tables' U_Shl_prim ..
+_AMT = {"u8": "AU8", "u16": "AU16", "u64": "AU64", "u128": "AU128", "usize": "AUsize",
+        "i8": "AI8", "i16": "AI16", "i32": "AI32", "i64": "AI64", "i128": "AI128", "isize": "AIsize"}
+C04 += [("%s_%s_%s_%s" % (S, tr, ty, m), "Ops.%s_%s_prim dbg w Ops.%s a k" % (S, tr, _AMT[ty]), None if ty in ("u8", "u16") else "glue_amt_tac.")
+        for tr, m in (("Shl", "shl"), ("Shr", "shr")) for ty in ["u8", "u16", "i8", "i16", "i32", "isize", "i64", "i128", "usize", "u64", "u128"]
+        for S in "UI"]
+
+C04_PRELUDE = """
+From Bnum.Model Require Ops.
+(* try_shift_impl!: `result_expect!(u32::try_from(rhs))` in debug builds / `rhs as u32` otherwise = Ops.amt_to_exptype *)
+Ltac glue_amt_tac :=
+  intros;
+  lazymatch goal with
+  | |- ?l = ?r => let hl := glue_head l in let hr := glue_head r in unfold hl, hr
+  end;
+  unfold Ops.amt_to_exptype, option_expect;
+  lazymatch goal with
+  | |- context [if ?d then _ else _] =>
+      destruct d; [ match goal with |- context [if ?c then Some _ else None] => destruct c end | ]; reflexivity
+  end.
+"""
+
 C08_PRELUDE = """
 (* `pow & 1 == 0` / `pow & 1 == 1` (bint checked_pow, overflowing_pow) are the model's Z.even / Z.odd *)
 Lemma land1_even e : (Z.land e 1 =? 0) = Z.even e.
@@ -154,8 +176,9 @@ SPEC = {
     "C03": ("div2", "div_euclid, rem_euclid, div_floor, div_ceil, next_multiple_of, checked_next_multiple_of; bint div_rem_unchecked, "
             "overflowing_div, overflowing_div_euclid, overflowing_rem_euclid; the inherent div / rem of const_trait_fillers.rs", False, "", C03),
     "C04": ("ops", "the operator trait impls of src/int/ops.rs (impls!), src/buint/ops.rs, src/bint/ops.rs that forward to the inherent "
-            "methods: Add Sub Mul Div Rem Neg Not BitAnd BitOr BitXor Shl<ExpType> Shr<ExpType>, Div / Rem by a digit",
-            True, "From Bnum.Model Require Ops.", C04),
+            "methods: Add Sub Mul Div Rem Neg Not BitAnd BitOr BitXor, Div / Rem by a digit, Shl / Shr for the twelve primitive amount types "
+            "(shift_impl!, try_shift_impl! expansions: widening cast, or u32::try_from + expect in debug builds and `as u32` otherwise)",
+            True, C04_PRELUDE, C04),
     "C05": ("rotate", "rotate_left/right, unbounded_shl/shr of buint/mod.rs and bint/mod.rs; unchecked_shl / unchecked_shr", False, "", C05),
     "C06": ("bits", "bits, bit, the bit counts of BInt, swap_bytes / reverse_bits of BInt, is_power_of_two, (checked_)next_power_of_two, "
             "is_zero / is_one, cast_signed / cast_unsigned, BInt bitand / bitor / bitxor / not", True, "", C06),
